@@ -333,6 +333,14 @@ type monitor struct {
 	decides []decideRec
 	sends   []sendRec
 	// harness-side lower bounds for the consumer-wrapper variant
+	updateCalls       int
+	policyCallsOnSend int
+	hasPolicyWrap     bool
+	lastPolicy        struct {
+		E        int
+		willEmit bool
+		what     string
+	}
 	sendOKLowerBound []int
 	seenSummary      map[string]int
 	stopped          atomic.Bool
@@ -420,6 +428,7 @@ func (w *policyWrap) Decide(in relaycore.DecisionInput) relaycore.DecisionOutput
 	m.mu.Lock()
 	e := m.emittedLocked()
 	m.decides = append(m.decides, decideRec{E: e, Ticker: in.IsTickerHedge, Attempt: in.AttemptNumber, Success: in.Summary.SuccessCount, Retry: out.Action == relaycore.ActionRetry, Reason: out.Reason})
+	m.lastPolicy.E, m.lastPolicy.willEmit, m.lastPolicy.what = e, out.Action == relaycore.ActionRetry, fmt.Sprintf("Decide ticker=%v -> %s", in.IsTickerHedge, out.Reason)
 	m.logf("decide@%d ticker=%v attempt=%d -> %s(%s)", e, in.IsTickerHedge, in.AttemptNumber, map[bool]string{true: "Retry", false: "Stop"}[out.Action == relaycore.ActionRetry], out.Reason)
 	m.mu.Unlock()
 	return out
@@ -438,6 +447,8 @@ func (w *policyWrap) OnSendRelayResult(err error, isPairingListEmpty bool) relay
 	if err == nil {
 		m.snaps = append(m.snaps, snap{E: e, What: "send-ok"})
 	}
+	m.policyCallsOnSend++
+	m.lastPolicy.E, m.lastPolicy.willEmit, m.lastPolicy.what = e, res == relaycore.SendRetry, fmt.Sprintf("OnSendRelayResult failed=%v -> %v", err != nil, res)
 	m.logf("on-send-result@%d failed=%v pairingEmpty=%v consecutive=%d -> %v", e, err != nil, isPairingListEmpty, w.consecutive, res)
 	m.mu.Unlock()
 	return res
@@ -448,11 +459,106 @@ type runResult struct {
 	sc          script
 	mon         *monitor
 	watchdog    bool
+	deadlock    string // non-empty: proof of a cyclic wait between consumer loop and state machine
+	deadlockSig string
 	harnessErr  error
 	sOK, sFail  int
 	classesSeen map[string]int
 	maxRetries  int
 	sendAtt     int
+}
+
+// updateBatch is the consumer loop's synchronous UpdateBatch call. The loop does not proceed until it
+// returns (as in ProcessRelaySend: read instruction -> send -> UpdateBatch -> read next instruction).
+// If the call stays parked, the logical state is sampled until it is frozen (no callback of the state
+// machine, no instruction movement between samples). Then a diagnosis decides what the frozen state is:
+// one instruction is taken out of the (full) instruction channel on behalf of nobody; if the state machine
+// thereupon delivers a further instruction, that instruction had been blocked behind the full channel, i.e.
+// the main loop was parked in an instruction send while the consumer loop was parked in UpdateBatch. The
+// only reader of the instruction channel is the parked consumer loop and the only reader of the batch-update
+// channel is the parked main loop: a cyclic wait that no timer can resolve. Without that proof the expiry
+// is a plain watchdog (inconclusive).
+func updateBatch(sm relaycore.RelayStateMachine, mon *monitor, batchCap int, err error) (returned bool, deadlock, sig string) {
+	done := make(chan struct{})
+	mon.mu.Lock()
+	mon.updateCalls++
+	mon.mu.Unlock()
+	go func() { sm.UpdateBatch(err); close(done) }()
+	select {
+	case <-done:
+		return true, "", ""
+	case <-time.After(processingTimeout + watchdogExtra):
+	}
+	type sample struct{ events, recv, queued, inCh int }
+	take := func() sample {
+		mon.mu.Lock()
+		defer mon.mu.Unlock()
+		return sample{len(mon.log), mon.recv, mon.updateCalls - 1 - mon.policyCallsOnSend, len(mon.ch)}
+	}
+	prev := take()
+	stable := 0
+	for i := 0; i < 12 && stable < 3; i++ {
+		time.Sleep(250 * time.Millisecond)
+		select {
+		case <-done:
+			return true, "", ""
+		default:
+		}
+		cur := take()
+		if cur == prev {
+			stable++
+		} else {
+			stable = 0
+		}
+		prev = cur
+	}
+	if stable < 3 || prev.inCh != cap(mon.ch) {
+		return false, "", ""
+	}
+	// diagnosis (after the verdict-relevant state is frozen): make room once, see whether something was waiting
+	recvOne := func(wait time.Duration) (instrRec, bool) {
+		deadline := time.Now().Add(wait)
+		for {
+			mon.mu.Lock()
+			select {
+			case in := <-mon.ch:
+				mon.recv++
+				rec := instrRec{Done: in.IsDone(), N: in.NumOfProviders, State: in.RelayState, Resolve: "diagnosis"}
+				if in.Err != nil {
+					rec.Err = in.Err.Error()
+				}
+				mon.instrs = append(mon.instrs, rec)
+				mon.logf("diagnosis: took instr#%d out of the channel (final=%v)", mon.recv-1, rec.Done)
+				mon.mu.Unlock()
+				return rec, true
+			default:
+			}
+			mon.mu.Unlock()
+			if time.Now().After(deadline) {
+				return instrRec{}, false
+			}
+			time.Sleep(200 * time.Microsecond)
+		}
+	}
+	y, ok := recvOne(0)
+	if !ok {
+		return false, "", ""
+	}
+	state := fmt.Sprintf("frozen state: consumer loop parked in UpdateBatch for > %v; instruction channel full (%d/%d); no state-machine callback and no instruction movement over 3 samples", processingTimeout+watchdogExtra, prev.inCh, cap(mon.ch))
+	if mon.hasPolicyWrap {
+		state += fmt.Sprintf("; batch updates enqueued and not processed by the main loop: %d (channel capacity %d)", prev.queued, batchCap)
+	}
+	if y.Done {
+		return false, state + "; the buffered instruction is the final one: the state machine has stopped with the batch-update channel full, the consumer loop can never return from UpdateBatch to read it", "final-emitted-but-consumer-loop-parked-in-UpdateBatch-forever"
+	}
+	z, ok := recvOne(time.Second)
+	if !ok {
+		return false, "", ""
+	}
+	if z.Done {
+		return false, state + "; after one instruction was taken out, the state machine delivered the FINAL instruction, which had been blocked behind the full channel: the main loop was parked emitting it", "main-loop-parked-emitting-final+consumer-loop-parked-in-UpdateBatch"
+	}
+	return false, state + "; after one instruction was taken out, the state machine delivered a further send instruction, which had been blocked behind the full channel: the main loop was parked in that send", "main-loop-parked-emitting-send+consumer-loop-parked-in-UpdateBatch"
 }
 
 func sleepMs(ms int) {
@@ -494,6 +600,7 @@ func (w *world) runScript(sc script) *runResult {
 
 	var sm relaycore.RelayStateMachine
 	if sc.Variant == "policy-wrapped" {
+		mon.hasPolicyWrap = true
 		sm, err = relaycore.NewUnifiedRelayStateMachine(ctx, used, snd, pm, nil, false, smCfg, &policyWrap{p: relaypolicy.NewPolicy(polCfg), m: mon})
 	} else {
 		sm, err = rpcconsumer.NewRelayStateMachine(ctx, used, snd, pm, nil, false)
@@ -597,7 +704,13 @@ func (w *world) runScript(sc script) *runResult {
 			mon.instrs[idx].Resolve = st.Resolve
 			mon.logf("harness: instr#%d send FAILED (%s) -> UpdateBatch(err)", idx, st.Resolve)
 			mon.mu.Unlock()
-			sm.UpdateBatch(serr)
+			if ok, dl, dsig := updateBatch(sm, mon, smCfg.MaxRetries, serr); !ok {
+				rr.deadlock, rr.deadlockSig, rr.watchdog = dl, dsig, dl == ""
+				mon.stopped.Store(true)
+				cancel()
+				wg.Wait()
+				return rr
+			}
 		default:
 			n := len(st.Resp)
 			if sc.Mode == "CrossValidation" {
@@ -642,7 +755,13 @@ func (w *world) runScript(sc script) *runResult {
 					deliver(rp, used, mon, prov, rs.Kind)
 				}(provs[j], rs)
 			}
-			sm.UpdateBatch(nil)
+			if ok, dl, dsig := updateBatch(sm, mon, smCfg.MaxRetries, nil); !ok {
+				rr.deadlock, rr.deadlockSig, rr.watchdog = dl, dsig, dl == ""
+				mon.stopped.Store(true)
+				cancel()
+				wg.Wait()
+				return rr
+			}
 		}
 	}
 }
@@ -705,14 +824,16 @@ func genResp(rng interface{ Intn(int) int }, kinds []string) respSpec {
 }
 
 var classes = []string{"all-send-fail", "send-fail-k-then-sent", "pairing-list-empty", "success", "node-error-retryable", "node-error-non-retryable",
-	"protocol-error-transient", "protocol-error-permanent", "epoch-mismatch", "silence-hedges", "mixed", "slow-consumer-loop", "hedge-send-fails-late"}
+	"protocol-error-transient", "protocol-error-permanent", "epoch-mismatch", "silence-hedges", "mixed", "slow-consumer-loop", "hedge-send-fails-late", "pipeline-flood"}
+
+var classMod = len(classes)
 
 var allKinds = []string{"ok", "nodeR", "nodeNR", "protoT", "protoP", "epoch", "silent", "silent"}
 
 func genScript(id int, seed int64) script {
 	rng := vrand.Sub(seed, "c34-script", id)
 	modes := []string{"Stateless", "Stateful", "CrossValidation"}
-	sc := script{ID: id, Mode: modes[id%3], Class: classes[(id/3)%len(classes)], Variant: "policy-wrapped"}
+	sc := script{ID: id, Mode: modes[id%3], Class: classes[(id/3)%classMod], Variant: "policy-wrapped"}
 	if rng.Intn(4) == 0 {
 		sc.Variant = "consumer-wrapper"
 	}
@@ -813,6 +934,15 @@ func genScript(id int, seed int64) script {
 		for i := 0; i < 12; i++ {
 			steps = append(steps, mkStep("S", []string{"silent"}))
 		}
+	case "pipeline-flood":
+		// a consumer loop that is slower than the hedge ticker for the whole request, sends failing twice out
+		// of three times (so neither the send-failure limit nor the attempt limit stops the hedges early)
+		for i := 0; i < 40; i++ {
+			st := mkStep([]string{"F", "F", "S"}[i%3], []string{"silent"})
+			st.ReadDelayMs = 22 + rng.Intn(25)
+			st.ResolveDelayMs = 0
+			steps = append(steps, st)
+		}
 	case "hedge-send-fails-late":
 		// first relay answers late with a stop-worthy result; the hedges behind it fail to send
 		first := mkStep("S", []string{"nodeNR", "protoP", "ok", "nodeR"})
@@ -876,6 +1006,13 @@ func judge(run *ev.Run, rr *runResult) (nontrivialSig string) {
 				finalIdx = i
 			}
 		}
+	}
+	if rr.deadlock != "" {
+		run.Violation("final-instruction-never-reaches-consumer", sc.Mode+"/deadlock:"+rr.deadlockSig,
+			"the consumer loop (read instruction, send, UpdateBatch, read next) and the state machine wait for each other forever: "+rr.deadlock,
+			witness())
+		run.Count("deadlocks_proven", 1)
+		return sc.Mode + "|" + sc.Variant + "|deadlock|" + rr.deadlockSig
 	}
 	if finalIdx < 0 {
 		tail := mon.log
@@ -1055,9 +1192,9 @@ func TestC34(t *testing.T) {
 	w := &world{parser: cp, retries: lavaprotocol.NewRelayRetriesManager()}
 
 	for id := 0; id < 3; id++ { // warm-up (lazy initialisation inside the repo's packages), not judged
-		w.runScript(genScript(3*3+id, run.Seed))
+		w.runScript(genScript(3*3+id, run.Seed)) // class 'success'
 	}
-	nScripts := run.Pick(429, 12870) // multiples of 3 modes x 13 classes
+	nScripts := run.Pick(420, 12600) // multiples of 3 modes x 14 classes
 	results := make([]*runResult, nScripts)
 	jobs := make(chan int)
 	var wg sync.WaitGroup
@@ -1154,7 +1291,7 @@ func TestC34(t *testing.T) {
 	run.Require("ticker hedges exercised", hedges > 0)
 	run.Require("all three selection modes run", len(perMode) == 3)
 
-	run.Finish("part 1: complete policy grid (see policy_grid); part 2: scripted runs of the real state machine with the consumer's config (relay timeout 20 ms, processing timeout 450 ms): per send instruction the script fixes how long the consumer loop takes to fetch it, whether the send fails / finds no pairing / succeeds, how long the send takes, and what every provider answers (success, retryable / non-retryable node error, transient / permanent protocol error, epoch mismatch, silence) after which delay; 13 script classes x 3 selection modes; a run is non-trivial when a stop rule's precondition became true in it (told about a success / non-retryable error, successful send in Stateful or CrossValidation, send-failure retries exhausted, maximum reached) or it retried at least once; distinct = distinct (mode, variant, per-send cause+resolution sequence, final kind, preconditions)",
+	run.Finish("part 1: complete policy grid (see policy_grid); part 2: scripted runs of the real state machine with the consumer's config (relay timeout 20 ms, processing timeout 450 ms): per send instruction the script fixes how long the consumer loop takes to fetch it, whether the send fails / finds no pairing / succeeds, how long the send takes, and what every provider answers (success, retryable / non-retryable node error, transient / permanent protocol error, epoch mismatch, silence) after which delay; 14 script classes x 3 selection modes; a run is non-trivial when a stop rule's precondition became true in it (told about a success / non-retryable error, successful send in Stateful or CrossValidation, send-failure retries exhausted, maximum reached) or it retried at least once; distinct = distinct (mode, variant, per-send cause+resolution sequence, final kind, preconditions)",
 		run.Pick(60, 400),
 		"'after a successful result / non-retryable error' = after the state machine's main loop was itself told so by its results summary (exact emission index taken inside that call); results still queued behind other select cases are concurrent, not 'before'",
 		"configured maximum = MaxRetries relays actually sent; allowed send-failure retries = SendRelayAttempts consecutive failed sends",
